@@ -302,7 +302,7 @@ BOUNDED = [Bounded("algebraic_consequences", _bounded_consequences)]
 
 # ---------------------------------------------------------------- consequences of the moment formula, as lemmas over the spec function
 # frequency_moment is proved equal to moment_spec above; the lemmas below are properties of moment_spec itself (
-# decided in the polynomial normal form of pyvc/calculus.py: ring laws + linearity of finite sums), so they transfer to the code.  Tm02 <= Tm01 (Cauchy-Schwarz) is NOT among them: bounded.
+# decided in the polynomial normal form of pyvc/calculus.py: ring laws + linearity of finite sums), so they transfer to the code.  Tm02 <= Tm01 is proved further below; the 1/f bounds of the periods stay bounded.
 import z3 as _z3
 
 
@@ -380,7 +380,52 @@ def _lemma_parameters():
     return hyps, goal
 
 
-LEMMAS = [Lemma("moment_scaling", _lemma_scaling, "m_n(c E) = c m_n(E)"),
+# ---- Tm02 <= Tm01 for non-negative spectra (Cauchy-Schwarz m1^2 <= m0 m2), in three steps:
+#  Q(lam) := trapezoid sum of e(f) (f - lam)^2 over the band;  (1) Q(lam) = m2 - 2 lam m1 + lam^2 m0 (normal form, linearity);  (2) Q(lam) >= 0 (every
+#  trapezoid term is non-negative);  (3) with lam = m1/m0: m1^2 <= m0 m2, hence sqrt(m0/m2) <= m0/m1.
+def _quadratic_form(view, lam, fmin, fmax):
+    f = view.f
+
+    def g(i):
+        return e_of(view, 0, i) * ((f[i] - lam) * (f[i] - lam))
+
+    def term(i):
+        t = (g(i) + g(i + 1)) / 2 * (f[i + 1] - f[i])
+        return If(And(in_band(f, i, fmin, fmax), in_band(f, i + 1, fmin, fmax)), t, 0)
+    return SumOf(term)
+
+
+def _lemma_q_expansion():
+    Ef, E2f, nanf, ff, nf, n, power, fmin, fmax, c = _lemma_setup()
+    lam = _z3.Real("lam_l")
+    v = _View(Ef, nanf, ff, nf)
+    m = [_partial(v, k, fmin, fmax)(0, nf - 1) for k in (0, 1, 2)]
+    Q = _quadratic_form(v, lam, fmin, fmax)(0, nf - 1)
+    return [nf >= 1], _normal_form_equal(Q, m[2] - 2 * lam * m[1] + lam * lam * m[0])
+
+
+def _lemma_q_nonneg():
+    Ef, E2f, nanf, ff, nf, n, power, fmin, fmax, c = _lemma_setup()
+    lam = _z3.Real("lam_l")
+    i = _z3.Int("qi")
+    v = _View(Ef, nanf, ff, nf)
+    Q = _quadratic_form(v, lam, fmin, fmax)
+    hyps = [nf >= 1, _z3.ForAll([i], _z3.And(Ef(i) >= 0, _z3.Implies(_z3.And(0 <= i, i < nf - 1), ff(i + 1) > ff(i))))]
+    return hyps, Q(0, nf - 1) >= 0
+
+
+def _lemma_cauchy_schwarz_step():
+    m0, m1, m2 = _z3.Reals("m0_l m1_l m2_l")
+    lam = m1 / m0
+    hyps = [m0 > 0, m1 > 0, m2 > 0, m2 - 2 * lam * m1 + lam * lam * m0 >= 0]
+    tm02, tm01 = T.uf("sqrt", m0 / m2), m0 / m1
+    return hyps, _z3.And(m1 * m1 <= m0 * m2, tm02 <= tm01)
+
+
+LEMMAS = [Lemma("tm02_le_tm01.quadratic_form_expands_to_the_moments", _lemma_q_expansion, "Q(lam) = m2 - 2 lam m1 + lam^2 m0"),
+          Lemma("tm02_le_tm01.quadratic_form_is_nonnegative", _lemma_q_nonneg, "sum of non-negative trapezoid terms"),
+          Lemma("tm02_le_tm01.cauchy_schwarz_and_period_order", _lemma_cauchy_schwarz_step, "lam = m1/m0 gives m1^2 <= m0 m2 and sqrt(m0/m2) <= m0/m1"),
+          Lemma("moment_scaling", _lemma_scaling, "m_n(c E) = c m_n(E)"),
           Lemma("moment_additive", _lemma_additive, "m_n(E1 + E2) = m_n(E1) + m_n(E2)"),
           Lemma("hm0_scales_with_sqrt_c_periods_scale_invariant", _lemma_parameters, "from m_n' = c m_n")]
 
@@ -389,4 +434,4 @@ TRUSTED = ["xarray library contracts of pyvc/models/xr.py (alignment by dimensio
            "every real other than the literal np.inf is finite",
            "pyvc/calculus.py normal form (ring laws, linearity of finite sums, indicator form of If) for the scaling / additivity lemmas"]
 EXPLANATION = ("moments and integral parameters proved equal to their defining trapezoid sums for all grids, bands, NaN placements and batch sizes; "
-               "scaling, additivity, Hm0 ~ sqrt(c) and scale-invariant periods as lemmas over the spec function; Tm02 <= Tm01 bounded")
+               "scaling, additivity, Hm0 ~ sqrt(c) and scale-invariant periods and Tm02 <= Tm01 (non-negative spectra) as lemmas over the spec function; period bounds 1/f bounded")
